@@ -153,6 +153,10 @@ func (o *Out) Finish() error {
 			first = false
 			fmt.Fprintf(&sb, " (%d%%N, %s)", c.Idx, c.Coq)
 		}
+		if first { // nothing to evaluate in this range (cases carried by another case's term)
+			i = j
+			continue
+		}
 		sb.WriteString("\n].\n")
 		sb.WriteString("Definition R_all := Eval vm_compute in evaluate cases.\n")
 		sb.WriteString("Definition R_mism := Eval vm_compute in fst R_all.\n")
